@@ -43,6 +43,7 @@ func runC10(e *Engine, r *Report) {
 	ruleTanFileInUse(e, r)
 	ruleDurableMkdir(e, r)
 	ruleTanManifestSync(e, r)
+	ruleCreatedFileSync(e, r, 1, "internal/tan", "internal/fileutil")
 }
 
 // runTanDirSync: after the CURRENT pointer is switched (rename inside
